@@ -6,6 +6,7 @@ import (
 	"net"
 	"net/netip"
 	"sort"
+	"strings"
 	"sync"
 	"time"
 
@@ -636,7 +637,11 @@ func fmtJudged(js []judged) []string {
 		if j.out.Kind == refmatch.Reject && j.d.Frame.Class == "own-probe" {
 			continue
 		}
-		out = append(out, fmt.Sprintf("#%d %s from %s len=%d read@%v -> %s ttl=%d dest=%v (%s)", j.d.Frame.ID, j.d.Frame.Class, j.src, len(j.d.Frame.Bytes), j.d.ReadAt.Format("05.000000"), j.out.Kind, j.out.TTL, j.out.Dest, j.out.Why))
+		hexs := ""
+		if strings.HasPrefix(j.d.Frame.Class, "noise:") && len(j.d.Frame.Bytes) <= 128 {
+			hexs = fmt.Sprintf(" bytes=%x", j.d.Frame.Bytes)
+		}
+		out = append(out, fmt.Sprintf("#%d %s from %s len=%d read@%v -> %s ttl=%d dest=%v (%s)%s", j.d.Frame.ID, j.d.Frame.Class, j.src, len(j.d.Frame.Bytes), j.d.ReadAt.Format("05.000000"), j.out.Kind, j.out.TTL, j.out.Dest, j.out.Why, hexs))
 	}
 	return out
 }
